@@ -453,7 +453,8 @@ class DownloadRetry(Spec):
         sv, d = out.post["surveys"], out.value
         return [("the-first-attempt-surveys-in-MODE_READ", z3.BoolVal(len(sv) >= 1 and sv[0][1] == MODE_READ)),
                 ("running-out-of-shares-starts-one-retry", z3.BoolVal(len(sv) == 2 and out.post["during"] in ("waiting", "pending"))),
-                ("the-retry-surveys-in-a-mode-that-asks-every-server", z3.BoolVal(len(sv) == 2 and sv[1][1] in (MODE_WRITE, MODE_CHECK, MODE_REPAIR))),
+                # MODE_WRITE does not qualify: its survey stops at the first gap in the permuted server list (D33)
+                ("the-retry-surveys-in-a-mode-that-asks-every-server", z3.BoolVal(len(sv) == 2 and sv[1][1] in (MODE_CHECK, MODE_REPAIR))),
                 ("the-retry-reads-through-the-new-survey", z3.BoolVal(len(self._versions) == 2 and self._versions[1][2] is out.post["maps"][1])),
                 ("the-read-ends-with-the-retrys-result", z3.BoolVal(d.state == "succeeded" and d.value == b"contents"))]
 
